@@ -119,6 +119,60 @@ def _root_self(body, local, depth=0):
     return False
 
 
+def _ref_target(body, local, depth=0):
+    """The caller place a reference-typed local points to (`r = &[mut] P`, through moves and reborrows), when
+    P is a path of derefs / fields only; else None."""
+    if depth > 8:
+        return None
+    if 1 <= local <= body["arg_count"]:
+        return None
+    defs = []
+    for blk in body["blocks"]:
+        for s in blk["stmts"]:
+            if s.get("k") == "assign" and s["place"]["local"] == local and not s["place"]["proj"]:
+                defs.append(s["rv"])
+        t = blk["term"]
+        if t.get("k") == "call" and t["dest"]["local"] == local and not t["dest"]["proj"]:
+            return None
+    if len(defs) != 1:
+        return None
+    rv = defs[0]
+    if rv["k"] == "use" and rv["op"].get("k") in ("move", "copy") and not rv["op"]["place"]["proj"]:
+        return _ref_target(body, rv["op"]["place"]["local"], depth + 1)
+    if rv["k"] == "ref":
+        pl = rv["place"]
+        if not all(e.get("k") in ("deref", "field") for e in pl["proj"]):
+            return None
+        if pl["proj"] and pl["proj"][0].get("k") == "deref":
+            inner = _ref_target(body, pl["local"], depth + 1)
+            if inner is not None:
+                return {"local": inner["local"], "proj": inner["proj"] + pl["proj"][1:]}
+        return {"local": pl["local"], "proj": list(pl["proj"])}
+    return None
+
+
+def _param_reassigned(helper, idx):
+    for blk in helper["blocks"]:
+        for s in blk["stmts"]:
+            if s.get("k") in ("assign", "setdiscr") and s["place"]["local"] == idx and not s["place"]["proj"]:
+                return True
+        t = blk["term"]
+        if t.get("k") == "call" and t["dest"]["local"] == idx and not t["dest"]["proj"]:
+            return True
+    return False
+
+
+def _retarget(obj, local, target):
+    """Rewrite every place `(*local).rest` in obj to `target.rest`."""
+
+    def f(d):
+        if d.get("local") == local and isinstance(d.get("proj"), list) and d["proj"] and d["proj"][0].get("k") == "deref" and not isinstance(d.get("local"), bool):
+            d["local"] = target["local"]
+            d["proj"] = copy.deepcopy(target["proj"]) + d["proj"][1:]
+
+    _walk(obj, f)
+
+
 def _splice(caller, bi, helper):
     """Replace the call terminating caller block `bi` by the body of `helper`."""
     t = caller["blocks"][bi]["term"]
@@ -143,6 +197,17 @@ def _splice(caller, bi, helper):
         loc = N + 1 + i
         ty = hl[1 + i]["ty"] if 1 + i < len(hl) else None
         pre.append({"k": "assign", "place": {"local": loc, "proj": [], "ty": ty}, "rv": {"k": "use", "op": a}, "span": t["span"], "inlined_arg": True})
+    # a parameter that is a reference to a place of the caller (`helper(&mut buffer)`): what the helper does
+    # through it, it does to that place
+    for i, a in enumerate(t["args"]):
+        ty = hl[1 + i]["ty"] if 1 + i < len(hl) else ""
+        if not (isinstance(ty, str) and ty.startswith("&")) or a.get("k") not in ("move", "copy") or a["place"]["proj"]:
+            continue
+        if _param_reassigned(helper, 1 + i):
+            continue
+        tgt = _ref_target(caller, a["place"]["local"])
+        if tgt is not None:
+            _retarget(hb, N + 1 + i, tgt)
     dest = t["dest"]
     target = t.get("target")
     unwind = t.get("unwind")
